@@ -129,8 +129,13 @@ class Com():
             })
 
         def add_str(s):
-            assert len(lines) > 0
-            lines[-1]['str'] += ';'
+            # The separator belongs to the last line of the command that was
+            # just listed, not to a verification condition listed after it.
+            for line in reversed(lines):
+                if line['ty'] == 'com':
+                    line['str'] += ';'
+                    return
+            raise AssertionError
 
         def rec(cmd):
             nonlocal indent
